@@ -1,6 +1,8 @@
 #!/bin/bash
 # usage: tools_seed.sh <seed-id> <property> <patch.diff> <demo_test.go> "<needs>" [check args...]
-# Verifies a seeded change in a scratch worktree, runs the property's quick check against it in /repo, records the outcome.
+# Verifies a seeded change in a scratch worktree and runs the property's quick check against it, records the outcome.
+# Default: the check runs against the scratch worktree holding the change (./check ... -repo <worktree>), so that /repo is not
+# disturbed while other runs use it; VP_SEED_INPLACE=1 applies the patch to /repo itself and undoes it afterwards.
 set -u
 id=$1; prop=$2; patch=$3; demo=$4; needs=$5; shift 5
 export GOFLAGS=-mod=mod GOPROXY=off GOSUMDB=off GOTOOLCHAIN=local
@@ -11,24 +13,32 @@ git -C /repo worktree add -q $vt HEAD
 r_apply=$(cd $vt && git apply $d/patch.diff 2>&1 && echo applied)
 r_tests=$(cd $vt && go test -vet=off -count=1 ./... 2>&1 | tail -1)
 cp $d/demo_test.go $vt/zz_mutant_demo_test.go
-r_demo_mut=$(cd $vt && go test -vet=off -count=1 -run 'TestMutantDemo$' . 2>&1 | grep -E "^(--- FAIL|FAIL|ok|panic)" | head -1)
+r_demo_mut=$(cd $vt && go test -vet=off -count=1 -run 'Test(Mutant)?Demo$' . 2>&1 | grep -E "^(--- FAIL|FAIL|ok|panic)" | head -1)
 (cd $vt && git checkout -q -- . )
-r_demo_orig=$(cd $vt && go test -vet=off -count=1 -run 'TestMutantDemo$' . 2>&1 | grep -E "^(--- FAIL|FAIL|ok|panic)" | head -1)
-git -C /repo worktree remove --force $vt
+r_demo_orig=$(cd $vt && go test -vet=off -count=1 -run 'Test(Mutant)?Demo$' . 2>&1 | grep -E "^(--- FAIL|FAIL|ok|panic)" | head -1)
+rm -f $vt/zz_mutant_demo_test.go
 echo "apply: $r_apply | existing tests with change: $r_tests | demo with change: $r_demo_mut | demo without: $r_demo_orig"
-# run the check against the change in /repo, then undo
-git -C /repo apply $d/patch.diff
-out=$(cd /verif && timeout 3000 ./check $prop quick "$@" 2>&1); rc=$?
-git -C /repo checkout -- .
+if [ "${VP_SEED_INPLACE:-0}" = 1 ]; then
+  git -C /repo worktree remove --force $vt
+  git -C /repo apply $d/patch.diff
+  out=$(cd /verif && timeout 3000 ./check $prop quick "$@" 2>&1); rc=$?
+  git -C /repo checkout -- .
+else
+  (cd $vt && git apply $d/patch.diff)
+  sc=$(mktemp -d /tmp/vsXXXX)
+  out=$(cd /verif && timeout 3000 ./check $prop quick -repo $vt -evidence $sc -replays $sc "$@" 2>&1); rc=$?
+  rm -rf $sc
+  git -C /repo worktree remove --force $vt
+fi
 echo "$out" | grep -E "^violation|quick:|INCON|MISM" | head -5
 nv=$(echo "$out" | grep -c "^VIOLATION")
-python3 - "$id" "$prop" "$needs" "$r_tests" "$r_demo_mut" "$r_demo_orig" "$rc" "$nv" "$*" <<'PY'
+VP_SEED_CHECK=$prop python3 - "$id" "${VP_SEED_BREAKS:-$prop}" "$needs" "$r_tests" "$r_demo_mut" "$r_demo_orig" "$rc" "$nv" "$*" <<'PY'
 import json,sys
 id,prop,needs,t,dm,do,rc,nv,extra=sys.argv[1:10]
 first=[l for l in open('/dev/stdin')] if False else []
 json.dump({"id":id,"breaks_property":prop,"needs_to_manifest":needs,
  "confirmed":{"existing_tests_with_change":t,"demo_with_change":dm,"demo_without_change":do},
- "check_run":{"cmd":"./check %s quick %s"%(prop,extra),"exit":int(rc),"violation_lines":int(nv),"caught":int(rc)==1 and int(nv)>0}},
+ "check_run":{"cmd":"./check %s quick %s"%(__import__('os').environ.get('VP_SEED_CHECK',prop),extra),"exit":int(rc),"violation_lines":int(nv),"caught":int(rc)==1 and int(nv)>0}},
  open('/verif/seeded/%s/meta.json'%id,'w'),indent=1)
 print("caught" if int(rc)==1 and int(nv)>0 else "MISSED", "rc",rc,"violations",nv)
 PY
